@@ -78,8 +78,14 @@ def run(chk):
         value = st.value if isinstance(st, (ast.Assign, ast.AnnAssign)) else None
         if value is None:
             continue
-        lits = [x for x in ast.walk(value) if isinstance(x, ast.Constant) and isinstance(x.value, str)]
-        if sum(1 for x in lits if x.value in sup) < 3:
+        # the collections inside the value whose members are all strings (a tuple of type names, the keys of a dict): the ones that
+        # name at least two supported types are about node types (message texts, format templates ... sit in mixed rows)
+        lits = []
+        for coll in ast.walk(value):
+            members = coll.elts if isinstance(coll, (ast.Tuple, ast.List, ast.Set)) else [k_ for k_ in coll.keys if k_ is not None] if isinstance(coll, ast.Dict) else None
+            if members and all(isinstance(m_, ast.Constant) and isinstance(m_.value, str) for m_ in members) and sum(1 for m_ in members if m_.value in sup) >= 2:
+                lits += members
+        if not lits:
             continue
         tname = norm(st.targets[0] if isinstance(st, ast.Assign) else st.target)[:40]
         for x in lits:
